@@ -1,9 +1,10 @@
 """C12 - catalog-forecast CSV files decode to exactly the catalogs they encode (decoder state machine)."""
 import ast
+import re
 
 from ..core import sym
 from ..core.expand import u, call_name, get_arg, bind_args, Expander, is_marker, phi_alternatives
-from ..core.loader import Inconclusive, const_value, parents
+from ..core.loader import Inconclusive, AnchorMissing, const_value, parents
 from .common import (explicit_guards_of, literal_dnf, guard_dnf, dispatch_targets, guarded_values, returns, all_nodes, callee, strip_shape, calls_in, guards_of, stmt_of, kw, find_assignments, compare_nf,
                      dict_literal_items, in_loop)
 
@@ -216,6 +217,12 @@ def rule_flush(ck):
                 inner = [u(t2) for t2, pol in g if t2 is not t and any(x is apps[0] for b_ in body for x in ast.walk(b_)) and
                          any(t2 is x for b_ in body for x in ast.walk(b_))]
                 good = len(inner) == 1 and 'temp_event' in inner[0] and "(None, '')" in inner[0] and inner[0].startswith('not all(')
+                if not good and len(inner) == 1 and inner[0].startswith('not all(') and "(None, '')" in inner[0]:
+                    # the comprehension over the event tuple written out: one emptiness test per component of temp_event
+                    tev = [a_ for a_ in find_assignments(f, 'temp_event') if isinstance(a_, ast.Assign) and isinstance(a_.value, ast.Tuple)]
+                    comps = {u(e_) for a_ in tev for e_ in a_.value.elts}
+                    tested = set(re.findall(r"(\w+) in \(None, ''\)", inner[0]))
+                    good = bool(comps) and tested == comps
             (o.ok('appends the event unless every field is empty') if good else o.fail('the same-catalog branch does not append the (non-placeholder) event to the pending list'))
     # final flush
     o = ck.ob('C12-D2.final', f, 'final flush after the loop', lp)
@@ -319,15 +326,27 @@ DTYPE_ORDER = ['id', 'origin_time', 'latitude', 'longitude', 'depth', 'magnitude
 def rule_columns(ck):
     P = ck.prog
     ck.clause('D4')
-    g = P.func(L + '.<locals>.read_catalog_line')
-    ex = Expander(P, g)
-    rets = [r for r in returns(g) if r.value is not None]
-    o = ck.ob('C12-D4.tuple', g, rets[0].value if rets else 'return', rets[0] if rets else g.node)
-    if len(rets) != 1 or not isinstance(rets[0].value, ast.Tuple) or len(rets[0].value.elts) != 2:
-        o.fail('read_catalog_line does not return (event, catalog_id)')
-        return
-    ev, cid = [ex.expand(x) for x in rets[0].value.elts]
-    line = g.positional_params[0]
+    g = P.funcs.get(L + '.<locals>.read_catalog_line')
+    if g is not None:
+        ex = Expander(P, g)
+        rets = [r for r in returns(g) if r.value is not None]
+        o = ck.ob('C12-D4.tuple', g, rets[0].value if rets else 'return', rets[0] if rets else g.node)
+        if len(rets) != 1 or not isinstance(rets[0].value, ast.Tuple) or len(rets[0].value.elts) != 2:
+            o.fail('read_catalog_line does not return (event, catalog_id)')
+            return
+        ev, cid = [ex.expand(x) for x in rets[0].value.elts]
+        line = g.positional_params[0]
+    else:
+        # the row decoder is no function of its own (any more): read the event tuple and the catalog id where the reader loop binds them
+        g, lp0 = _main_loop(P)
+        line = lp0.target.id if isinstance(lp0.target, ast.Name) else 'line'
+        ex = Expander(P, g, keep={line})
+        evs = [a for a in find_assignments(g, 'temp_event') if isinstance(a, ast.Assign) and in_loop(a, g.node) is lp0]
+        cids = [a for a in find_assignments(g, 'catalog_id') if isinstance(a, ast.Assign) and in_loop(a, g.node) is lp0]
+        o = ck.ob('C12-D4.tuple', g, evs[-1].value if evs else 'event tuple', evs[-1] if evs else lp0)
+        if not evs or not cids:
+            raise AnchorMissing('neither the row decoder read_catalog_line nor the bindings of temp_event / catalog_id in the reader loop were found')
+        ev, cid = ex.expand(evs[-1].value), ex.expand(cids[-1].value)
     def colidx(e):
         """index of line[...] leaf the value derives from (unique), and the wrapper functions"""
         idx = {const_value(x.slice) for x in ast.walk(e) if isinstance(x, ast.Subscript) and isinstance(x.value, ast.Name) and x.value.id == line}
